@@ -24,7 +24,7 @@ func init() {
 			"observation through typed views is faithful (C09)",
 			"the heapsort/ninther/insertion counters come from verif hooks; without hooks regime reachability is not measured",
 		},
-		Stages:  stages(10000, 150000, 400, 0),
+		Stages:  stages(10000, 400000, 400, 0),
 		RunCase: runC03,
 		Conclude: func(tier string, c map[string]int64, st []string) string {
 			if r := shapeConclude(30)(tier, c, st); r != "" {
